@@ -20,7 +20,7 @@ def seeds():
                     req = "; ".join(str(x) for x in req)
                 nf = any("no-failing-input-found" in l for l in d.get("lines", []))
                 how.append(("%s: " % pid) + ("proof obligation / correspondence broken, no failing input found" if nf and not req else "failing input: " + re.sub(r"\s+", " ", req)[:170]))
-        out.append("| %s | %s | %s | %s |" % (sid, summ.replace("|", "/"), ", ".join(by) or "MISSED", "; ".join(how).replace("|", "/")))
+        out.append("| %s | %s | %s | %s |" % (sid, summ.replace("|", "/"), ", ".join(by) or ("nothing to report: made harmless by " + j["obsolete_since"]["commit"] if j.get("obsolete_since") else "MISSED"), "; ".join(how).replace("|", "/")))
     return "\n".join(out)
 
 
